@@ -694,24 +694,42 @@ def c02d(F, R):
     """gen/kill at returns, calls, ecalls and function entries use whole convention classes"""
     gp = F.method(PNODE, "gen_reg", trait=HGKI)
     g = F.fn(gp)
-    top = peel(g["hir"]["value"])
-    okk = False
-    detail = ""
-    if top.get("k") == "Binary" and top["op"] == "Sub" and mentions_call(top["b"], "const_zero_set"):
-        i0 = peel(top["a"])
-        if i0.get("k") == "If":
-            c1 = mentions_call(i0["cond"], "is_ureturn") and mentions_call(i0["then"], "all_writable_set")
-            e1 = peel(i0.get("else") or {})
-            c2 = e1.get("k") == "If" and mentions_call(e1["cond"], "is_return") and mentions_call(e1["then"], "callee_saved_set")
-            # the registers read: from the operand table, or enumerated per node kind (whose agreement with the table is C02.k's business)
-            c3 = e1.get("k") == "If" and (mentions_call(e1.get("else") or {}, "reads_from")
-                                          or any(m_.get("k") == "Match" and ekey(m_["scrut"]).lstrip("*&") == "self" for m_ in walk(e1.get("else") or {}, pats=False)))
-            okk = c1 and c2 and c3
-            detail = f"ureturn->all_writable={c1}, return->callee_saved={c2}, else reads_from={c3}"
+    # evaluated per node kind (not read off the shape of the if-chain): a `uret` reads every writable register, a `ret` the
+    # callee-saved ones, anything else what its operand table says - and x0 is taken out in every case
+    from .nodeprops import eval_prop_full, Unx
+
+    def calls_in(v):
+        out = set()
+        if isinstance(v, tuple):
+            if v and v[0] == "call" and len(v) > 1 and isinstance(v[1], str):
+                out.add(v[1])
+            for x in v:
+                out |= calls_in(x)
+        return out
+    cases = (("uret", "Basic", {"inst": "Uret"}, {"all_writable_set"}, {"callee_saved_set"}),
+             ("ret", "JumpLinkR", {"inst": "Jalr", "rd": "X0", "rs1": "X1", "imm": 0}, {"callee_saved_set"}, {"all_writable_set"}),
+             ("add", "Arith", {"inst": "Add", "rd": "X5", "rs1": "X6", "rs2": "X7"}, set(), {"all_writable_set", "callee_saved_set"}))
+    okk, detail = True, []
+    for nm, variant, env, must, mustnot in cases:
+        try:
+            v = eval_prop_full(F, "gen_reg", variant, env, trait=HGKI)
+        except Unx as ex:
+            okk = False
+            detail.append(f"{nm}: UNEXTRACTABLE ({ex})")
+            continue
+        cs = calls_in(v)
+        minus_zero = isinstance(v, tuple) and v and v[0] == "bin" and v[1] == "Sub" and "const_zero_set" in calls_in(v[3]) or nm == "add" and "const_zero_set" in cs
+        if not must <= cs or cs & mustnot:
+            okk = False
+            detail.append(f"`{nm}` reads {sorted(cs - {'const_zero_set'}) or 'its operands'} (expected {sorted(must) or 'its operands'})")
+        elif not minus_zero:
+            okk = False
+            detail.append(f"`{nm}`: x0 is not taken out of the set")
+    detail = "; ".join(detail)
     if okk:
         R.ok("gen_reg", detail="gen = all writable at uret, callee-saved at ret, else the registers read; minus x0")
     else:
-        R.bad("gen_reg", "gen_reg shape changed: " + (detail or "UNEXTRACTABLE"), g["sp"])
+        R.bad("gen_reg", "gen_reg: " + detail + " - a `uret` must read every writable register (the interrupted code owns them all), a `ret` the callee-saved ones", g["sp"])
     f = _livepass_run(F)
     # per instruction kind, the blocks that compute its facts: in every if-chain of the pass that distinguishes kinds, the branch
     # that names the kind's predicate, or - when the chain has none - its final `else` (the kind is treated like any other node)
